@@ -231,6 +231,11 @@ def check_strip(acc, c, insts, case, ignore):
         space.scramble(cg.tx.strip_blackboxes(c, ignore_pins=ignore))
         r = cg.tx.strip_blackboxes(c, ignore_pins=ignore)
     except Exception as e:  # noqa: BLE001
+        flat = [n.replace(".", "_") for n in c.graph.nodes if c.graph.nodes[n]["type"] in ("bb_input", "bb_output")
+                and n.split(".")[-1] not in ([] if ignore is None else [ignore] if isinstance(ignore, str) else list(ignore))]
+        if isinstance(e, ValueError) and len(set(flat)) < len(flat):
+            acc.outcome("strip-refused-colliding-pin-names")   # two pins would get one name: refusing is right
+            return
         acc.violation("strip", f"raises:{common.exc_name(e)}", cc, repr(e))
         return
     if r.blackboxes:
@@ -253,8 +258,9 @@ def check_strip(acc, c, insts, case, ignore):
     if set(r.inputs()) != exp_in or set(r.outputs()) != exp_out:
         acc.violation("strip", "io-wrong", cc, f"inputs {sorted(r.inputs())} outputs {sorted(r.outputs())}; expected {sorted(exp_in)} / {sorted(exp_out)}")
         return
+    kept_flat = {ren(m) for m in c.graph.nodes if "." in m and m.split(".")[-1] not in ign}
     for n in c.graph.nodes:
-        if "." in n and n.split(".")[-1] in ign and (n in r.graph or ren(n) in r.graph):
+        if "." in n and n.split(".")[-1] in ign and (n in r.graph or (ren(n) in r.graph and ren(n) not in kept_flat)):
             acc.violation("strip", "ignored-pin-present", cc, n)
             return
     assign, _ = refsim.free_assign(fr)
@@ -510,6 +516,9 @@ def hist_sequences(depth):
                                         yield ops[:cut]
 
 
+PINM = {"name": "pinm", "nodes": [["m_a", "input", [], False], ["z", "not", ["m_a"], True]]}
+
+
 def collision_sequences():
     """The parent already holds a blackbox instance called u1_m when u1 (whose child holds a sub-blackbox m) arrives."""
     inv = HIST_CHILDREN["inv"]
@@ -519,6 +528,10 @@ def collision_sequences():
             yield [["B", c1, "u1", m1], ["B", inv, "u1_m", {}], ["F", None, "u1", None, "collide"]]
             yield [["B", inv, "u1_m", {"a": "b"}], ["B", c1, "u1", m1], ["F", None, "u1", None, "collide"]]
             yield [["B", inv, "u1_m", {}], ["S", c1, "u1", m1, "collide"]]
+    # two different pins that strip_blackboxes would both call u1_m_a (instance u1 pin m_a, instance u1_m pin a)
+    for c1m, c2m in (({}, {}), ({"m_a": "a"}, {"a": "b"}), ({"m_a": "g", "z": "w1"}, {"a": "a"})):
+        yield [["B", PINM, "u1", c1m], ["B", inv, "u1_m", c2m]]
+        yield [["B", inv, "u1_m", c2m], ["B", PINM, "u1", c1m]]
 
 
 def run_hist(job, acc):
